@@ -94,8 +94,8 @@ PROPS['C06'] = {
 _CORE_TB = _BUS_TB + ['decoder::decode / interpreter::run_op / Op::is_block_end are external_body in unit core_step: their assumed contract (status <= 5, 1..3 bytes, 4..24 clocks, +0..3 taken cycles, SP/PC < 65536) is what the Kani ISA obligations of C05/C06 discharge per opcode; determinism of these functions is assumed',
                       'CodeCache is an opaque type in unit core_step (interpreter-only build)']
 PROPS['C07'] = {
-    'level': 'proof', 'verus': ['core_step'], 'trusted_base': _CORE_TB, 'design_ref': 'DESIGN.md 5.7',
-    'technique': 'Verus contract on Core::handle_interrupt (relation irq_post) over the bus write contract; all IF/IE/IME/run-state/SP values symbolic',
+    'level': 'proof', 'verus': ['core_step'], 'kani': ['misc:irq'], 'trusted_base': _CORE_TB, 'design_ref': 'DESIGN.md 5.7',
+    'technique': 'Verus contract on Core::handle_interrupt (relation irq_post) over the bus write contract + a loop-free Kani twin of the same function over all IF/IE/IME/run-state/SP/PC values (gives counterexamples, replayed natively)',
     'level_text': 'Core::handle_interrupt is extracted from /repo and proved against irq_post, the property sentence by sentence: pending = IF & IE; none pending => whole core unchanged; otherwise the CPU resumes; master enable not on => registers, memory, IME unchanged; on => IME off, PC high byte written at SP-1 then low byte at SP-2 (mod 2^16, through the bus contract, so pushes landing on IE/IF/ROM are covered), pending set re-sampled between the writes, lowest pending bit selects vector/IF bit, cancellation gives PC = 0 with IF untouched, +5 machine cycles.',
     'level_note': 'The existential over the two intermediate memory states is witnessed by ghost snapshots placed by textual anchors (a lost anchor makes the run undecided, not an alarm).',
     'assumptions': [],
@@ -194,5 +194,5 @@ PROPS['C15'] = {
     'assumptions': [],
 }
 
-HOOK_COMMITS = ['e7167ea']
+HOOK_COMMITS = ['e7167ea', '094daf3', 'ddd33be']
 NOT_APPLICABLE = {}
